@@ -59,6 +59,7 @@ type Case struct {
 	Outs    []Out  `json:"outs,omitempty"`
 	Prev    *Prev  `json:"prev,omitempty"`
 	Model   bool   `json:"model"`
+	Seq     []Case `json:"seq,omitempty"` // op "seq": steps run in order in one process
 }
 
 const (
@@ -405,7 +406,21 @@ func outcome(op string, pan bool, err error) string {
 	return "outcome/" + op + "/accept"
 }
 
+// run executes one case; a sequence (op "seq") is executed step by step in
+// this one process, so that whatever the implementation remembers from an
+// earlier step is still there for the later ones.  Every observation of a
+// sequence is reported with the WHOLE sequence, which is what a replay needs.
 func run(c *vh.Ctx, cs Case) {
+	if cs.Op == "seq" {
+		for _, st := range cs.Seq {
+			runStep(c, st, cs)
+		}
+		return
+	}
+	runStep(c, cs, cs)
+}
+
+func runStep(c *vh.Ctx, cs Case, rep Case) {
 	extra := unhex(cs.Extra)
 	term := ""
 	switch cs.Op {
@@ -422,23 +437,23 @@ func run(c *vh.Ctx, cs Case) {
 			term = vh.App("CNode", pk(extra), vh.Bool(cs.Genesis), tblCoq(t),
 				resBytes(pan, err, func() []byte { return nodeProj(cn) }))
 		}
-		c.Case("node:"+cs.Kind, caseKey(cs), len(extra) == entrySize, cs, term)
+		c.Case("node:"+cs.Kind, caseKey(cs), len(extra) == entrySize, rep, term)
 		c.Count(outcome("node", pan, err))
 		if pan {
-			c.Fail("node-panic", "parseCustodianNode panicked", cs)
+			c.Fail("node-panic", "parseCustodianNode panicked", rep)
 		}
 		if accepted {
 			if len(extra) != entrySize || extra[0] != 1 {
-				c.Fail("accept-noncanonical", "entry of wrong size or action accepted", cs)
+				c.Fail("accept-noncanonical", "entry of wrong size or action accepted", rep)
 				return
 			}
 			e := entry{extra[offCS : offCS+32], extra[offCV : offCV+32], extra[offPS : offPS+32], extra[offPV : offPV+32], extra}
 			if !bytes.Equal(nodeProj(cn), bytes.Join([][]byte{e.cs, e.cv, e.ps, e.pv, e.raw}, nil)) {
-				c.Fail("roundtrip-mismatch", "parsed entry differs from the encoded fields", cs)
+				c.Fail("roundtrip-mismatch", "parsed entry differs from the encoded fields", rep)
 			}
 			if !cs.Genesis {
 				if s, w := entriesRule([]entry{e}); s != "" {
-					c.Fail(s, "single entry accepted: "+w, cs)
+					c.Fail(s, "single entry accepted: "+w, rep)
 				}
 			}
 		}
@@ -460,12 +475,12 @@ func run(c *vh.Ctx, cs Case) {
 				}))
 		}
 		ents, shaped := decode(extra)
-		c.Case("parse:"+cs.Kind, caseKey(cs), shaped && len(ents) >= 7, cs, term)
+		c.Case("parse:"+cs.Kind, caseKey(cs), shaped && len(ents) >= 7, rep, term)
 		c.Count(outcome("parse", pan, err))
 		if pan {
-			c.Fail("parse-panic", "ParseCustodianUpdateNodesExtra panicked", cs)
+			c.Fail("parse-panic", "ParseCustodianUpdateNodesExtra panicked", rep)
 		}
-		judgeParse(c, cs, extra, req, accepted)
+		judgeParse(c, cs, rep, extra, req, accepted)
 	case "validate":
 		tx := &common.Transaction{Version: cs.Version, Asset: crypto.Hash(key32(unhex(cs.Asset))), Extra: extra}
 		outs := make([]string, len(cs.Outs))
@@ -496,28 +511,28 @@ func run(c *vh.Ctx, cs Case) {
 		var req *common.CustodianUpdateRequest
 		var perr error
 		ppan, _ := vh.Catch(func() { req, perr = common.ParseCustodianUpdateNodesExtra(extra, false) })
-		c.Case("validate:"+cs.Kind, caseKey(cs), !ppan && perr == nil && len(cs.Outs) == 1, cs, term)
+		c.Case("validate:"+cs.Kind, caseKey(cs), !ppan && perr == nil && len(cs.Outs) == 1, rep, term)
 		c.Count(outcome("validate", pan, err))
 		if !accepted {
 			return
 		}
-		judgeParse(c, cs, extra, req, !ppan && perr == nil)
+		judgeParse(c, cs, rep, extra, req, !ppan && perr == nil)
 		ents, shaped := decode(extra)
 		if !shaped {
 			return
 		}
 		if cs.Prev == nil || cs.Prev.Mode != "some" {
-			c.Fail("accept-no-custodian", "update accepted without a current custodian", cs)
+			c.Fail("accept-no-custodian", "update accepted without a current custodian", rep)
 			return
 		}
 		m := len(extra) - 64
 		if !realVerify(unhex(cs.Prev.CS), extra[:m], extra[m:]) {
-			c.Fail("accept-bad-approval", "approval signature does not verify under the current custodian key", cs)
+			c.Fail("accept-bad-approval", "approval signature does not verify under the current custodian key", rep)
 		}
 		if len(cs.Outs) >= 1 {
 			amt, _ := new(big.Int).SetString(cs.Outs[0].Amount, 10)
 			if p := priceOf(ents, cs.Prev); amt.Cmp(p) < 0 {
-				c.Fail("accept-underpaid", fmt.Sprintf("amount %s units below the price %s units of the new and changed entries", amt, p), cs)
+				c.Fail("accept-underpaid", fmt.Sprintf("amount %s units below the price %s units of the new and changed entries", amt, p), rep)
 			}
 		}
 	default:
@@ -526,44 +541,44 @@ func run(c *vh.Ctx, cs Case) {
 }
 
 // judgeParse: clauses about the entry list, and the encode/parse round trip.
-func judgeParse(c *vh.Ctx, cs Case, extra []byte, req *common.CustodianUpdateRequest, accepted bool) {
+func judgeParse(c *vh.Ctx, cs Case, rep Case, extra []byte, req *common.CustodianUpdateRequest, accepted bool) {
 	if !accepted {
 		if !cs.Genesis && wellFormed(extra) {
-			c.Fail("roundtrip-reject", "a well-formed encoded update was not parsed back", cs)
+			c.Fail("roundtrip-reject", "a well-formed encoded update was not parsed back", rep)
 		}
 		return
 	}
 	ents, shaped := decode(extra)
 	if !shaped {
-		c.Fail("accept-noncanonical", "extra that is not header + 353-byte entries + signature accepted", cs)
+		c.Fail("accept-noncanonical", "extra that is not header + 353-byte entries + signature accepted", rep)
 		return
 	}
 	if len(ents) < 7 {
-		c.Fail("accept-too-few", fmt.Sprintf("%d entries accepted", len(ents)), cs)
+		c.Fail("accept-too-few", fmt.Sprintf("%d entries accepted", len(ents)), rep)
 	}
 	for _, e := range ents {
 		if e.raw[0] != 1 {
-			c.Fail("accept-noncanonical", "entry with a foreign action byte accepted", cs)
+			c.Fail("accept-noncanonical", "entry with a foreign action byte accepted", rep)
 		}
 	}
 	if !sameEntries(req, extra, ents) {
-		c.Fail("roundtrip-mismatch", "parsed entries differ from the encoded entries", cs)
+		c.Fail("roundtrip-mismatch", "parsed entries differ from the encoded entries", rep)
 	} else if !bytes.Equal(reencode(req), extra) {
-		c.Fail("roundtrip-mismatch", "re-encoding the parsed update does not give the input back", cs)
+		c.Fail("roundtrip-mismatch", "re-encoding the parsed update does not give the input back", rep)
 	}
 	if cs.Genesis {
 		// genesis mode waives only the per-entry checks of CustodianNode.validate
 		for i := 1; i < len(ents); i++ {
 			if bytes.Compare(ents[i-1].cs, ents[i].cs) >= 0 {
-				c.Fail("accept-unsorted", "genesis update with unsorted or duplicate custodian keys accepted", cs)
+				c.Fail("accept-unsorted", "genesis update with unsorted or duplicate custodian keys accepted", rep)
 			}
 		}
 		return
 	}
 	if s, w := entriesRule(ents); s != "" {
-		c.Fail(s, w, cs)
+		c.Fail(s, w, rep)
 	} else if s, w := keyReuse(ents); s != "" {
-		c.Fail(s, "a key is used twice: "+w, cs)
+		c.Fail(s, "a key is used twice: "+w, rep)
 	}
 }
 
@@ -1072,6 +1087,101 @@ func (g *gen) crossAll(run func(Case)) {
 	}
 }
 
+// ---- sequences: history must not matter -------------------------------------------------
+// A genuine update is parsed and validated, then copies whose per-entry
+// signatures are broken while every signed body Extra[:161] is unchanged (the
+// approval is re-made over the new bytes, so ONLY the entry signatures are
+// wrong), a copy with a broken approval, a copy with one body byte changed
+// under the old signatures, and the genuine one again.  control = the
+// tampered copies come first, on entries this process has never seen.
+func (g *gen) sequence(control bool) Case {
+	n := 7
+	if g.r.Chance(1, 5) {
+		n = g.r.Range(8, 10)
+	}
+	s := g.scenario(n, "allnew")
+	es := g.entries(s.specs)
+	appr := &s.prevCust.PrivateSpendKey
+	price := new(big.Int).Mul(big.NewInt(int64(100*n)), big.NewInt(100000000))
+	clone := func() [][]byte {
+		o := make([][]byte, len(es))
+		for i, e := range es {
+			o[i] = append([]byte{}, e...)
+		}
+		return o
+	}
+	var steps []Case
+	add := func(kind string, extra []byte) {
+		v := g.validateCase("seq/"+kind, extra, s.prev, price, n)
+		v.Model = true
+		steps = append(steps, v)
+		if strings.HasPrefix(kind, "genuine") || kind == "payee-sig-flipped" || kind == "all-sigs-zeroed" {
+			steps = append(steps, Case{Op: "parse", Kind: "seq/" + kind, Extra: hx(extra), Model: true})
+		}
+	}
+	genuine := approve(assemble(s.newCust, es), appr)
+	var tampered []func()
+	tampered = append(tampered, func() { // one payee signature, one bit
+		t := clone()
+		t[g.r.Intn(n)][offPSig+g.r.Intn(64)] ^= byte(1 << g.r.Intn(8))
+		add("payee-sig-flipped", approve(assemble(s.newCust, t), appr))
+	}, func() { // one custodian signature zeroed
+		t := clone()
+		i := g.r.Intn(n)
+		copy(t[i][offCSig:], make([]byte, 64))
+		add("custodian-sig-zeroed", approve(assemble(s.newCust, t), appr))
+	}, func() { // every payee and custodian signature zeroed
+		t := clone()
+		for i := range t {
+			copy(t[i][offPSig:], make([]byte, 128))
+		}
+		add("all-sigs-zeroed", approve(assemble(s.newCust, t), appr))
+	}, func() { // payee and custodian signatures exchanged in one entry
+		t := clone()
+		i := g.r.Intn(n)
+		copy(t[i][offPSig:], es[i][offCSig:offCSig+64])
+		copy(t[i][offCSig:], es[i][offPSig:offPSig+64])
+		add("sigs-exchanged", approve(assemble(s.newCust, t), appr))
+	}, func() { // genuine entries, approval broken
+		b := append([]byte{}, genuine...)
+		b[len(b)-64+g.r.Intn(64)] ^= byte(1 << g.r.Intn(8))
+		add("approval-broken", b)
+	}, func() { // one byte of the signed body (node id) changed, old signatures, re-approved
+		t := clone()
+		t[g.r.Intn(n)][129+g.r.Intn(32)] ^= byte(1 + g.r.Intn(255))
+		add("body-byte-old-sigs", approve(assemble(s.newCust, t), appr))
+	})
+	nodeSteps := func(first bool) {
+		e := es[g.r.Intn(n)]
+		bad := append([]byte{}, e...)
+		bad[offPSig+g.r.Intn(128)] ^= byte(1 << g.r.Intn(8))
+		a := Case{Op: "node", Kind: "seq/genuine", Extra: hx(e), Model: true}
+		b := Case{Op: "node", Kind: "seq/sig-flipped", Extra: hx(bad), Model: true}
+		if first {
+			steps = append(steps, b, a)
+		} else {
+			steps = append(steps, a, b)
+		}
+	}
+	kind := "seq/genuine-first"
+	if control {
+		kind = "seq/tampered-first"
+		nodeSteps(true)
+		for _, f := range tampered {
+			f()
+		}
+		add("genuine", genuine)
+	} else {
+		add("genuine", genuine)
+		nodeSteps(false)
+		for _, f := range tampered {
+			f()
+		}
+		add("genuine-again", genuine)
+	}
+	return Case{Op: "seq", Kind: kind, Seq: steps}
+}
+
 // corpus: boundary cases first.
 func (g *gen) corpus() []Case {
 	var out []Case
@@ -1191,6 +1301,7 @@ func main() {
 	c.Rep.Rule = "custodian updates of 7..50 entries built with real keys and signatures (common.EncodeCustodianNode), " +
 		"then reordered / duplicated / byte-mutated / re-approved, against previous custodian states (none, error, empty, same set, " +
 		"overlapping with changed payee or custodian keys, duplicate entries) and amounts at price-1, price, price+1; " +
+		"plus sequences in one process (genuine update, then copies with broken entry signatures over unchanged signed bodies, broken approval, changed body under old signatures, genuine again; and the tampered copies first); " +
 		"plus otherwise canonical updates in which one spend key is reused across roles and entries (every field pair, both orders, adjacent and far); " +
 		"non-trivial = the real parser accepts the extra so validation reaches the approval/price core (validate), " +
 		"the extra has header + >= 7 whole entries + signature (parse), the entry has 353 bytes (node); distinct by hash of all inputs"
@@ -1204,6 +1315,9 @@ func main() {
 	g := &gen{c: c, r: c.Rng, storageS: "fffe40"}
 	g.net = crypto.Blake3Hash([]byte("verif-c34-network"))
 	g.bigLeft = c.Scale(3, 40)
+	run(c, g.sequence(true)) // control: tampered copies before anything genuine was seen by this process
+	run(c, g.sequence(false))
+	run(c, g.sequence(false))
 	for _, cs := range g.corpus() {
 		run(c, cs)
 	}
@@ -1219,6 +1333,9 @@ func main() {
 	}
 	for i := c.Scale(1, 25); i > 0; i-- {
 		g.crossAll(func(cs Case) { run(c, cs) })
+	}
+	for i := c.Scale(3, 30); i > 0; i-- {
+		run(c, g.sequence(i%3 == 0))
 	}
 	for i := 0; i < nParse; i++ {
 		run(c, g.parseCase())
